@@ -221,3 +221,216 @@ def check_c21(prop, tier, seed):
 
 PLANS["C05"] = check_c05
 PLANS["C21"] = check_c21
+
+
+def check_c23(prop, tier, seed):
+    """Row search: the compiled first_zeros_aligned on structured rows vs RowSearch!SearchOk (TLC),
+    plus the symbolic leg (Apalache, all 2^64 rows per order) when it is available."""
+    res = Result(prop, tier, seed, "model_checking")
+    vlib.build("th4")
+    parts = 8 if tier == "quick" else 16
+    nrand = 600 if tier == "quick" else 20000
+    jobs = [("th4", ["rows", "seed=%d" % seed, "part=%d" % i, "parts=%d" % parts, "rand=%d" % nrand]) for i in range(parts)]
+    gen_and_validate(res, jobs, [prop], module="TraceSat")
+    res.cov["rule"] = ("for each order 0..6: rows built from aligned blocks (first free block at every position, blocks "
+                       "below filled with ones / low bit / high bit / all-but-one / alternating, blocks above zero / ones "
+                       "/ patterned / random), every single-bit and single-hole row, every single free aligned and "
+                       "misaligned block, seeded random rows of 5 densities; the compiled function's (offset, new row) is "
+                       "validated by TLC against RowSearch!SearchOk (lowest aligned free block, exactly its bits set)")
+    import symbolic
+    symbolic.rowsearch_symbolic(res, tier)
+    return res
+
+
+def check_c16(prop, tier, seed):
+    res = Result(prop, tier, seed, "model_checking")
+    vlib.build("th4")
+    parts = 8 if tier == "quick" else 16
+    maxlen, dom = (6, 4) if tier == "quick" else (8, 4)
+    jobs = [("th4", ["sortbuf", "seed=%d" % seed, "maxlen=%d" % maxlen, "dom=%d" % dom, "part=%d" % i,
+                     "parts=%d" % parts, "rand=%d" % (2000 if tier == "quick" else 40000)]) for i in range(parts)]
+    nts = 8 if tier == "quick" else 64
+    jobs += [("th4", ["treesearch", "seed=%d" % (seed * 100 + i), "runs=1500"]) for i in range(nts)]
+    gen_and_validate(res, jobs, [prop], module="TraceSat")
+    res.cov["exhaustive"] = True
+    res.cov["rule"] = ("SortedBuffer<N,u8>: ALL insertion sequences up to length %d over ratings 0..%d for every capacity "
+                       "N=1..8 (exhaustive) plus random sequences up to length 64, compiled code's iter().rev() validated by "
+                       "TLC against SortedBuf!IterOk; Trees::search_best::<N> (N in 1,2,3,4,8) over random tree arrays (1-24 "
+                       "trees, random counters / classes / reservations, full and neighbourhood scans): logged ratings and "
+                       "access order validated against SortedBuf!TreeSearchOk" % (maxlen, dom - 1))
+    return res
+
+
+def check_c12(prop, tier, seed):
+    res = Result(prop, tier, seed, "model_checking")
+    geos = ["th4", "th1", "th2"] if tier == "quick" else ["th4", "th1", "th2", "th8", "16k"]
+    vlib.build_all(geos)
+    n = 6 if tier == "quick" else 60
+    jobs = [(g, ["lower", "seed=%d" % (seed * 100 + i), "runs=%d" % (25 if tier == "quick" else 60)])
+            for g in geos for i in range(n)]
+    gen_and_validate(res, jobs, [prop], module="TraceSat")
+    res.cov["rule"] = ("the compiled Lower (no upper allocator) on 1-2 trees incl. partial last trees: allocation patterns "
+                       "built per huge frame from {untouched, entirely free, whole, exactly one free block of order k at "
+                       "position p, random sub-blocks}, then directed allocations Lower::get(row hint, order) for orders "
+                       "0..tree order from random row hints until exhaustion; every call is a TLC step of TraceSat!LGet/"
+                       "LPut: failure only if Abs!ExistsFreeBlock is false for the hinted tree, success marks exactly the "
+                       "returned block (per-frame observation compared)")
+    return res
+
+
+PLANS["C23"] = check_c23
+PLANS["C16"] = check_c16
+PLANS["C12"] = check_c12
+
+
+def check_c17(prop, tier, seed):
+    res = Result(prop, tier, seed, "model_checking")
+    res.aliases = {"C02", "C08", "C09", "C04"}
+    geos = ["th4", "th1"] if tier == "quick" else ["th4", "th1", "th2", "th8", "16k"]
+    vlib.build_all(geos)
+    n = 6 if tier == "quick" else 40
+    jobs = [(g, ["zone", "seed=%d" % (seed * 100 + i), "runs=%d" % (4 if tier == "quick" else 10),
+                 "len=%d" % (60 if tier == "quick" else 200)]) for g in geos for i in range(n)]
+    gen_and_validate(res, jobs, ["C17", "C02", "C08", "C09", "C04"])
+    res.cov["rule"] = ("ZoneAlloc<LLFree> at tree-aligned offsets (and refused misaligned ones) and NvmAlloc<LLFree> over real "
+                       "page-aligned regions of 1-3 trees plus odd remainders, driven through the Alloc trait with random "
+                       "histories incl. frames below the offset; the harness shifts frame numbers by the offset on the way in "
+                       "and back on the way out, so TLC validates the wrapped allocator with the ordinary ownership / "
+                       "accounting predicates (a wrong translation misplaces a block) plus TraceAbs!NvmCreate (layout: managed "
+                       "= total - header - metadata pages), NvmRefuse (untouched / differently sized regions), Reinit "
+                       "(recovered instance has the same allocation state)")
+    return res
+
+
+PLANS["C17"] = check_c17
+
+
+def check_c19(prop, tier, seed):
+    res = Result(prop, tier, seed, "model_checking")
+    vlib.build_eval()
+    parts = 8 if tier == "quick" else 16
+    jobs = [("eval", ["classes", "tier=" + tier, "part=%d" % i, "parts=%d" % parts]) for i in range(parts)]
+    gen_and_validate(res, jobs, [prop], module="TraceSat")
+    res.cov["rule"] = ("class configurations: synthetic 1-4 class configurations in which each position takes each slot-count "
+                       "kind (zero, one, cores, cores_half, pids) while the others are 'cores', all-same-kind configurations, and "
+                       "the shipped results/classes*.json; for core counts %s x core x pid (boundary values in quick, 0..64 in "
+                       "thorough) x orders x GFP flag sets the compiled ClassingConfig::request / classing is called, the request "
+                       "is used for a real allocation, and TLC validates every generated request against "
+                       "Classes!ValidRequest (TraceSat!Cls)" % ("1,2,3,4,8,16" if tier == "quick" else "1..16"))
+    return res
+
+
+PLANS["C19"] = check_c19
+
+
+def check_c20(prop, tier, seed):
+    """spec -> impl: TLC enumerates traces from Replay.tla, the compiled replay binary runs each;
+    impl -> spec: TLC validates the binary's output against Replay!Expected (TraceSat!ReplayEv)."""
+    import re, random, replaylib
+    from concurrent.futures import ThreadPoolExecutor
+    res = Result(prop, tier, seed, "model_checking")
+    binary = vlib.build_replay()
+    depth = 3 if tier == "quick" else 4
+    cfg = os.path.join(vlib.WORK, "MC_Replay_%d.cfg" % os.getpid())
+    open(cfg, "w").write("SPECIFICATION Spec\nCONSTANTS\n  Letters <- AllLetters\n  Depth = %d\nINVARIANT Emit\nCHECK_DEADLOCK FALSE\n" % depth)
+    rc, out, dt = vlib.tlc("MC_Replay", cfg=cfg, workers=1, xmx="4g", timeout=3000)
+    os.unlink(cfg)
+    if rc != 0:
+        raise vlib.ToolError("Replay generator failed:\n" + out[-2000:])
+    gen, dist = vlib.tlc_stats(out)
+    seqs = [json.loads(json.loads('"%s"' % m)) for m in re.findall(r'<<"SEQ", "((?:[^"\\]|\\.)*)">>', out)]
+    seqs = [s for s in seqs if s]
+    if tier == "thorough":
+        rnd0 = random.Random(seed)
+        rnd0.shuffle(seqs)
+        seqs = seqs[:60000]
+    # seeded random longer traces over the same alphabet (orders 0..10, several cores)
+    rnd = random.Random(seed)
+    letters = sorted({tuple(e) for s in seqs for e in s})
+    extra = []
+    for i in range(300 if tier == "quick" else 5000):
+        n = rnd.randint(4, 14)
+        s = []
+        for _ in range(n):
+            if rnd.random() < 0.25:
+                o = rnd.choice([0, 1, 2, 3, 5, 9, 10])
+                p = rnd.choice([8, 16, 64, 512, 1024, 1536])
+                p = max(1 << o, (p >> o) << o)
+                kind = rnd.random() < 0.5
+                if not kind and rnd.random() < 0.7 and o > 0:
+                    # partial free inside
+                    so = rnd.randint(0, o - 1)
+                    s.append([0, p + rnd.randrange(1 << (o - so)) * (1 << so), so])
+                else:
+                    s.append([1 if kind else 0, p, o])
+            else:
+                s.append(list(rnd.choice(letters)))
+        extra.append(s)
+    allseq = seqs + extra
+    with ThreadPoolExecutor(max_workers=vlib.NCPU) as ex:
+        evs = list(ex.map(lambda iq: replaylib.run_replay(binary, iq[1], vlib.WORK, cores=1 + iq[0] % 3), enumerate(allseq)))
+    # validate in chunks
+    chunk = 2500
+    files = []
+    for i in range(0, len(evs), chunk):
+        p = os.path.join(vlib.WORK, "replay-%d-%d.ndjson" % (os.getpid(), i))
+        with open(p, "w") as f:
+            f.write(json.dumps({"ev": "hdr", "props": [prop]}) + "\n")
+            for e in evs[i:i + chunk]:
+                f.write(json.dumps(e) + "\n")
+        files.append(p)
+
+    def val(p):
+        # each replay event is its own "run": split on rejection by removing the offending line
+        fails = []
+        lines = open(p).read().splitlines()[1:]
+        st = 0
+        for _ in range(200):
+            if not lines:
+                break
+            q = p + ".part"
+            with open(q, "w") as f:
+                f.write(json.dumps({"ev": "hdr", "props": [prop]}) + "\n" + "\n".join(lines) + "\n")
+            rc, out, dt = vlib.tlc("TraceSat", env={"TRACE": q}, deque=True)
+            os.unlink(q)
+            g, s = vlib.tlc_stats(out)
+            st += s
+            if '"ACCEPTED"' in out and rc == 0:
+                break
+            m = re.search(r'<<"REJECTED", (\d+), "([a-z]+)">>', out)
+            if not m:
+                raise vlib.ToolError("TLC failed on replay events:\n" + out[-2000:])
+            ln = int(m.group(1)) - 2
+            ev = json.loads(lines[ln])
+            for fm in re.finditer(r'<<"FAIL", "(C\d+)", "([^"]+)", (\d+)>>', out):
+                if int(fm.group(3)) == ln + 2:
+                    fails.append({"prop": fm.group(1), "check": fm.group(2), "run": "replay", "line": ln, "event": ev,
+                                  "lines": [lines[ln]]})
+                    break
+            lines = lines[ln + 1:]
+        os.unlink(p)
+        return st, fails
+
+    with ThreadPoolExecutor(max_workers=8) as ex:
+        outs = list(ex.map(val, files))
+    for st, fails in outs:
+        res.cov["states"] += st
+        res.add_failures(fails)
+    res.cov["states"] += dist
+    res.cov["transitions"] = gen + len(evs)
+    res.cov["evaluations"] = len(evs)
+    res.cov["traces_validated_against_impl"] = len(evs)
+    res.distinct = {json.dumps(e["seq"]) for e in evs}
+    res.cov["exhaustive"] = True
+    res.sample(evs[len(evs) // 3])
+    res.sample(evs[-1])
+    res.cov["rule"] = ("spec->impl: TLC enumerates EVERY trace up to length %d over the 19-letter alphabet of MC_Replay.tla "
+                       "(allocations of orders 0,1,2,9,10; whole frees; frees of first / middle / last parts; frees of unknown "
+                       "frames; re-allocations) plus seeded random traces of length 4-14 (orders 0..10); each is written as a "
+                       "binary trace file (1-3 cores) and run through the compiled eval/src/bin/replay.rs; impl->spec: TLC "
+                       "validates the reported free_frames / failed frees against Replay!Expected; distinct = distinct traces"
+                       % depth)
+    return res
+
+
+PLANS["C20"] = check_c20
